@@ -442,6 +442,31 @@ func scenarioWrite(op string) func(c *harness.Ctx) {
 					return
 				}
 			}
+			// the same failure with a destination that also implements io.ByteWriter
+			// and io.StringWriter (a type switch may route single bytes and strings
+			// through them)
+			{
+				cw := &simio.CapWriter{FaultWriter: &simio.FaultWriter{FailAt: k, Sticky: tp.Bool(1, 2), Err: simio.ErrInjected}}
+				fWCapable.Hit()
+				var err error
+				pan := func() (p any) {
+					defer func() { p = recover() }()
+					_, err = wc.enc(cw)
+					return nil
+				}()
+				c.Evals++
+				if cw.ByteCalls+cw.StringCalls > 0 {
+					pCapUsed.Hit()
+				}
+				if pan != nil {
+					c.Fail("panic", op, "writer-failure", "%s panicked when a writer with WriteByte/WriteString failed after %d of %d bytes: %v", op, k, W, pan)
+					return
+				}
+				if cw.Failed && err == nil {
+					c.Fail("swallowed-write-error", op, "bytewriter", "%s returned nil although its destination (an io.ByteWriter/io.StringWriter, sticky=%v) failed after accepting %d of %d bytes", op, cw.Sticky, k, W)
+					return
+				}
+			}
 		}
 	}
 }
@@ -475,3 +500,6 @@ var _ = tape.New
 var pBufio = simrt.NewProbe("reader.is.a.bufio.Reader")
 
 var pMega = simrt.NewProbe("document.larger.than.1MiB")
+
+var fWCapable = simrt.NewFault("writer.with.WriteByte/WriteString.fails")
+var pCapUsed = simrt.NewProbe("write.op.used.the.destination's.WriteByte/WriteString")
